@@ -208,8 +208,13 @@ func (f *Fosite) WriteIntrospectionResponse(ctx context.Context, rw http.Respons
 		}
 	}
 
-	if !r.GetAccessRequester().GetSession().GetExpiresAt(AccessToken).IsZero() {
-		response["exp"] = r.GetAccessRequester().GetSession().GetExpiresAt(AccessToken).Unix()
+	// the expiry of the token that was introspected: a refresh token has its own (or none)
+	expiresKey := AccessToken
+	if r.GetTokenUse() == RefreshToken {
+		expiresKey = RefreshToken
+	}
+	if !r.GetAccessRequester().GetSession().GetExpiresAt(expiresKey).IsZero() {
+		response["exp"] = r.GetAccessRequester().GetSession().GetExpiresAt(expiresKey).Unix()
 	}
 	if r.GetAccessRequester().GetClient().GetID() != "" {
 		response["client_id"] = r.GetAccessRequester().GetClient().GetID()
